@@ -371,7 +371,7 @@ func init() {
 	// ---- C11: refresh (sequential part) ----
 	plans["C11"] = func(thorough bool) []*Job {
 		var jobs []*Job
-		kinds := []string{"result-mismatch", "loader-calls", "refresh-deadline-mismatch", "deadline-mismatch", "refresh-channel", "phantom-value", "missing-entry", "wrong-cause", "unexpected-removal", "event-missing", "hook-mismatch", "inflight-left"}
+		kinds := []string{"result-mismatch", "loader-calls", "refresh-deadline-mismatch", "deadline-mismatch", "refresh-channel", "phantom-value", "missing-entry", "wrong-cause", "unexpected-removal", "event-missing", "hook-mismatch", "inflight-left", "refresh-result-wrong"}
 		for _, ref := range []string{"creating", "writing"} {
 			for _, exp := range []string{"", "writing"} {
 				for _, ex := range []string{"caller", "deferred"} {
